@@ -99,6 +99,8 @@ theorem grow_setSess (b : B) (s : Sess) : Grow b (b.setSess s) := by
   · exact h
 
 theorem grow_msgs (b : B) (m : List Msg) : Grow b { b with msgs := m } := ⟨rfl, rfl, rfl, rfl, rfl, rfl, fun _ h => h⟩
+theorem grow_msgs_ats (b : B) (m : List Msg) (a : List Nat) : Grow b { b with msgs := m, ats := a } :=
+  ⟨rfl, rfl, rfl, rfl, rfl, rfl, fun _ h => h⟩
 theorem grow_retained (b : B) (m : List (String × Msg)) : Grow b { b with retained := m } :=
   ⟨rfl, rfl, rfl, rfl, rfl, rfl, fun _ h => h⟩
 theorem grow_pendingWills (b : B) (m : List (String × Msg × Nat)) : Grow b { b with pendingWills := m } :=
@@ -111,7 +113,7 @@ theorem grow_enqueue (b : B) (cid : String) (q : Nat) (m : Msg) : Grow b (b.enqu
   · exact Grow.refl b
   · split
     · exact Grow.refl b
-    · exact (grow_setSess b _).trans (grow_msgs _ _)
+    · exact (grow_setSess b _).trans (grow_msgs_ats _ _ _)
 
 theorem grow_foldl {α : Type} (f : B → α → B) (hf : ∀ b a, Grow b (f b a)) (l : List α) (b : B) :
     Grow b (l.foldl f b) := by
@@ -124,7 +126,13 @@ theorem grow_deliverMsg (b : B) (src : String) (m : Msg) (hints : List Nat) (rap
   simp only [B.deliverMsg]
   exact grow_foldl _ (fun b a => grow_enqueue b _ _ _) _ _
 
-theorem grow_sendWill (b : B) (cid : String) (m : Msg) : Grow b (b.sendWill cid m) := grow_deliverMsg b cid m [] []
+theorem grow_sendWill (b : B) (cid : String) (m : Msg) : Grow b (b.sendWill cid m) := by
+  unfold B.sendWill
+  split
+  · split
+    · exact (grow_retained b _).trans (grow_deliverMsg _ cid m [] [])
+    · exact (grow_retained b _).trans (grow_deliverMsg _ cid m [] [])
+  · exact grow_deliverMsg b cid m [] []
 
 /-! ### `Outs`: what a step appends to the output -/
 
@@ -289,6 +297,64 @@ theorem WF.terminate {b : B} (h : WF b) (cid : String) (hno : ∀ x ∈ b.clis, 
       intro e; have := hcs'.2; simp [e] at this
     rw [sess?_terminate_ne b cid cs.1 hne]
     exact h.subsess cs hcs'.1
+
+/-- `terminateS` is `terminate` followed by internal bookkeeping (the pending will is dropped and published) -/
+theorem grow_terminateS (b : B) (cid : String) : Grow (b.terminate cid) (b.terminateS cid) := by
+  unfold B.terminateS
+  split
+  · exact (grow_dropWill _ cid).trans (grow_sendWill _ cid _)
+  · exact Grow.refl _
+
+/-! publishing (a will) creates no session -/
+
+theorem enqueue_sess_none (b : B) (cid' : String) (q : Nat) (m : Msg) (cid : String) (h : b.sess? cid = none) :
+    (b.enqueue cid' q m).sess? cid = none := by
+  unfold B.enqueue
+  split
+  · exact h
+  · next s hs =>
+    split
+    · exact h
+    · have hcid := (sess?_some hs).2
+      show (b.setSess _).sess? cid = none
+      rw [sess?_setSess]
+      have : ¬ cid' = cid := by
+        intro e; rw [e, h] at hs; cases hs
+      simp only [hcid, this, if_false, h]
+
+theorem deliverMsg_sess_none (b : B) (src : String) (m : Msg) (hints : List Nat) (rap : List String) (cid : String)
+    (h : b.sess? cid = none) : (b.deliverMsg src m hints rap).1.sess? cid = none := by
+  simp only [B.deliverMsg]
+  generalize (deliver b.cfg.onlyOnce src (orderTable rap b.subs) m (pickBy hints)).2 = enqs
+  induction enqs generalizing b with
+  | nil => exact h
+  | cons x xs ih => exact ih _ (enqueue_sess_none b _ _ _ cid h)
+
+theorem sendWill_sess_none (b : B) (c : String) (m : Msg) (cid : String) (h : b.sess? cid = none) :
+    (b.sendWill c m).sess? cid = none := by
+  unfold B.sendWill
+  split
+  · split <;> exact deliverMsg_sess_none _ _ _ _ _ cid h
+  · exact deliverMsg_sess_none _ _ _ _ _ cid h
+
+theorem sess?_terminateS_self (b : B) (cid : String) : (b.terminateS cid).sess? cid = none := by
+  unfold B.terminateS
+  split
+  · exact sendWill_sess_none _ _ _ _ (sess?_terminate_self b cid)
+  · exact sess?_terminate_self b cid
+
+theorem terminateS_offline (b : B) (cid : String) : (b.terminateS cid).offline = b.offline.filter (·.1 != cid) :=
+  (grow_terminateS b cid).offline
+theorem terminateS_subs (b : B) (cid : String) : (b.terminateS cid).subs = b.subs.filter (·.1 != cid) :=
+  (grow_terminateS b cid).subs
+
+theorem WF.terminateS {b : B} (h : WF b) (cid : String) (hno : ∀ x ∈ b.clis, x.cid ≠ cid) : WF (b.terminateS cid) :=
+  (h.terminate cid hno).grow (grow_terminateS b cid)
+
+theorem terminateS_out (b : B) (cid : String) : (b.terminateS cid).out = b.out := (grow_terminateS b cid).out
+theorem terminateS_cfg (b : B) (cid : String) : (b.terminateS cid).cfg = b.cfg := (grow_terminateS b cid).cfg
+theorem terminateS_now (b : B) (cid : String) : (b.terminateS cid).now = b.now := (grow_terminateS b cid).now
+theorem terminateS_clis (b : B) (cid : String) : (b.terminateS cid).clis = b.clis := (grow_terminateS b cid).clis
 
 theorem WF.setOffline {b : B} (h : WF b) (cid : String) (d : Nat) (hno : ∀ x ∈ b.clis, x.cid ≠ cid) :
     WF { b with offline := (cid, d) :: b.offline.filter (·.1 != cid) } := by
